@@ -36,6 +36,7 @@ def main():
         sh(f"git -C {WT} reset -q")
         res["patch_applied_with_3way_merge"] = ap.returncode == 0
     if ap.returncode != 0:
+        sh(f"git -C {WT} reset -q; git -C {WT} checkout -- .")  # leave the scratch worktree clean for the next change
         print("PATCH DOES NOT APPLY:", ap.stderr[:300]); sys.exit(2)
     try:
         if "scenic.gram" in open(os.path.join(d, "patch.diff")).read():
